@@ -106,6 +106,7 @@ func twin(args []string) {
 	db := fs.String("db", "memdb", "database backend: memdb|goleveldb")
 	seed := fs.Int64("crashseed", 0, "restart at pseudo-random points derived from this seed (0: never)")
 	fs.IntVar(&real.RestartPct, "crashpct", 0, "probability (percent) of a restart at each eligible point (0: default 12)")
+	fs.UintVar(&real.InvCheckPeriod, "invperiod", 0, "node-local --inv-check-period of this instance (0: invariants are not asserted in EndBlock)")
 	fs.Parse(args)
 	if *in == "" || *out == "" {
 		die(2, "twin: -script and -out are required")
